@@ -57,8 +57,9 @@ impl LeapSecondsFile {
         let mut me = Self::default();
 
         for line in contents.lines() {
-            // A blank line is ignored (as the header of the IERS file says), also when it holds only white space.
-            let line = line.trim();
+            // A blank line is ignored (as the header of the IERS file says), also when it holds only white space,
+            // and a comment runs from the '#' to the end of the line, wherever it starts.
+            let line = line.split('#').next().unwrap_or("").trim();
             if let Some(first_char) = line.chars().next() {
                 if first_char == '#' {
                     continue;
